@@ -147,4 +147,11 @@ theorem bridge_gauss_chains :
     Gen.C03.gauss_returned = ["PredictionIntervals(aggregate_data.lower.round(decimals=0), aggregate_data.upper.round(decimals=0))"] :=
   ⟨rfl, rfl, rfl⟩
 
+/-- `ModelResultsHandler`: reporting and unexpected units get their counted votes as prediction and as both bounds (`finalRow`), nonreporting units the model's values; one unit table from the three frames; estimands joined on the key columns -/
+theorem bridge_results_handler :
+    Gen.C03.results_handler_columns = ["add_unit_predictions: self.reporting_units[f'pred_{estimand}'] = self.reporting_units[f'results_{estimand}']", "add_unit_predictions: self.nonreporting_units[f'pred_{estimand}'] = unit_predictions", "add_unit_predictions: self.unexpected_units[f'pred_{estimand}'] = self.unexpected_units[f'results_{estimand}']", "add_unit_turnout_predictions: self.reporting_units['pred_turnout'] = self.reporting_units['results_weights']", "add_unit_turnout_predictions: self.nonreporting_units['pred_turnout'] = unit_turnout_predictions", "add_unit_turnout_predictions: self.unexpected_units['pred_turnout'] = self.unexpected_units['results_weights']", "add_unit_intervals: self.reporting_units[lower_string] = self.reporting_units[f'results_{estimand}']", "add_unit_intervals: self.reporting_units[upper_string] = self.reporting_units[f'results_{estimand}']", "add_unit_intervals: self.nonreporting_units[lower_string] = prediction_intervals_unit[alpha].lower", "add_unit_intervals: self.nonreporting_units[upper_string] = prediction_intervals_unit[alpha].upper", "add_unit_intervals: self.unexpected_units[lower_string] = self.unexpected_units[f'results_{estimand}']", "add_unit_intervals: self.unexpected_units[upper_string] = self.unexpected_units[f'results_{estimand}']", "add_agg_predictions: estimates_df[f'lower_{alpha}_{estimand}'] = agg_interval_predictions[alpha][0]", "add_agg_predictions: estimates_df[f'upper_{alpha}_{estimand}'] = agg_interval_predictions[alpha][1]"] ∧
+    Gen.C03.unit_table = ["pd.concat([self.reporting_units, self.nonreporting_units, self.unexpected_units]).sort_values('geographic_unit_fips')[['postal_code', 'geographic_unit_fips', f'pred_{estimand}', 'reporting', 'unit_category'] + interval_cols + [f'results_{estimand}'] + (['pred_turnout'] if estimand == 'margin' else [])]"] ∧
+    Gen.C03.final_joins = ["merge_on = [col for col in AGGREGATE_ORDER if col in self.estimates[agg][0].columns] + ['reporting']", "agg_df = reduce(lambda x, y: pd.merge(x, y, how='inner', on=merge_on), self.estimates[agg])", "merge_on = ['postal_code', 'reporting', 'geographic_unit_fips', 'unit_category']", "reduce(lambda x, y: pd.merge(x, y, how='inner', on=merge_on), self.unit_data.values())"] :=
+  ⟨rfl, rfl, rfl⟩
+
 end ElexModel.Agg
